@@ -1899,6 +1899,13 @@ def check_C18(tier: str, seed: int) -> int:
         res = {prof: vplib.run_sharded([vplib.impl_driver(prof), "util"], lines, w.dir, "util_" + prof) for prof in ("release", "dev")}
         mb = vplib.run_sharded([vplib.MODEL_DRIVER, "util"], lines, w.dir, "util_model", model=True)
         corr_fail, direct_fail = [], []
+        # the same calls in a process without a logger (the drivers otherwise install one that accepts every level)
+        nolog = vplib.run_sharded([vplib.impl_driver("release"), "util"], lines, w.dir, "util_nolog", extra_env={"VERIF_NO_LOGGER": "1"})
+        for i, (a, b) in enumerate(zip(res["release"], nolog)):
+            if a is None or b is None or a[0] != b[0]:
+                direct_fail.append({"what": "the result depends on whether the host process has logging switched on", "case": lines[i][:200],
+                                    "with_logger": a[0][:2] if a else None, "without": b[0][:2] if b else None})
+                break
 
         def lookup_ok(pal, failure, transparent, c, got) -> Optional[str]:
             r, g, b, a = c
@@ -3062,6 +3069,15 @@ def check_C16(tier: str, seed: int) -> int:
                                         "input": items[i][1], "_data": open(paths[i], "rb").read()})
                     break
             if len(direct_fail) > 6:
+                break
+        # the host's logging configuration must not matter: the same inputs in a process WITHOUT a logger (the drivers otherwise
+        # install one that accepts every level, so that the arguments of the crate's log lines are evaluated)
+        nolog = vplib.impl_observe("release", paths, w.dir, 15, max_frames=3, max_layers=5, fresh_threads=True, tag="nolog", extra_env={"VERIF_NO_LOGGER": "1"})
+        for i, (p, desc) in enumerate(items):
+            if iso[i] is None or nolog[i] is None or iso[i][0] != nolog[i][0]:
+                direct_fail.append({"what": "the result depends on whether the host process has logging switched on",
+                                    "input": desc, "with_logger": iso[i][0][:2] if iso[i] else None, "without": nolog[i][0][:2] if nolog[i] else None,
+                                    "_data": open(p, "rb").read()})
                 break
         # originals and their name-only twins, pair after pair on one thread (a -> b -> a): both are alive when the second is observed
         tp_idx = [i for a_, b_ in twin_pairs for i in (a_, b_, a_)]
